@@ -29,7 +29,7 @@ if ! (cd "$S/repo" && $GO build ./... > "$S/build0.log" 2>&1); then
   INSTR_NOLOCKS=1 instrument
   (cd "$S/repo" && $GO build ./... > "$S/build0.log" 2>&1) || fail "instrumented copy does not compile: $(tail -20 "$S/build0.log")"
 fi
-cp "$VERIF"/sim/*.go "$S/sim"/ || fail "copy sim"
+cp "$VERIF"/sim/*.go "$VERIF"/sim/*.s "$S/sim"/ || fail "copy sim"
 cat > "$S/sim/go.mod" <<EOF
 module verif/sim
 
